@@ -143,6 +143,8 @@ def do_op(qr, op):
             ret = qr.version
         elif kind == "best_fit":
             ret = qr.best_fit(start=op[1])
+        elif kind == "best_mask_pattern":
+            ret = qr.best_mask_pattern()
         elif kind == "get_matrix":
             ret = pack(qr.get_matrix())
         elif kind == "print_ascii":
@@ -612,6 +614,26 @@ class Run:
         m.version = r["version_after"]
         self.log.ev("best_fit", op["obj"], op["start"], exc, ret)
 
+    def op_best_mask_pattern(self, qr, m, op):
+        """Perturbation only.  best_mask_pattern() is callable but is neither a
+        compile nor a renderer in the property's sense: it runs the eight trial
+        builds and leaves the last trial matrix (and a 'compiled' flag) behind.
+        Nothing is demanded of its return value or of what renderers show
+        afterwards; the next *compile* must again equal a fresh object's."""
+        o = ("best_mask_pattern",)
+        r = self.ref(m.spec(o))
+        exc, ret, _ = do_op(qr, o)
+        if r["version_after"] != m.version:
+            m.changed_since_compile = True
+        m.version = r["version_after"]
+        m.cur = pack(qr.modules)
+        m.sym_version = None
+        m.scribbled = True
+        m.need = "unsure"
+        m.changed_since_compile = True
+        self.stats.inc("probe.best_mask_pattern_called")
+        self.log.ev("best_mask_pattern", op["obj"], exc, ret)
+
     # ---- lazily compiling renderers -----------------------------------------
     def _render(self, qr, m, opkind, refop, call, prop, injected=None):
         """Run a renderer on the aged object.  `call()` performs it and returns
@@ -1029,7 +1051,7 @@ QDATA = [("a", MODE_BYTE), ("123", MODE_NUMBER), ("123", MODE_ALNUM), ("123", MO
          ("HELLO", MODE_ALNUM), ("HELLO", MODE_BYTE), (b"\x00\xff", MODE_BYTE),
          ("0" * 30, MODE_NUMBER), ("A1" * 8, MODE_ALNUM)]
 
-OP_KINDS = ["add", "addq", "clear", "make_fit", "make_nofit", "set_version", "set_level",
+OP_KINDS = ["best_mask_pattern", "add", "addq", "clear", "make_fit", "make_nofit", "set_version", "set_level",
             "set_mask", "set_border", "set_box", "read_version", "best_fit", "get_matrix",
             "scribble", "image", "print_ascii", "print_tty", "other", "set_invalid", "new"]
 # the 14-operation alphabet of the stratified skeleton (thorough tier / low indices)
@@ -1058,7 +1080,7 @@ def _weights(focus):
               "set_mask": 1.2, "get_matrix": 1.5, "image": 1.0, "print_ascii": 1.0,
               "print_tty": 0.6, "other": 0.6, "set_invalid": 0.5, "new": 0.4, "addq": 0.5,
               "clear": 0.8, "best_fit": 0.6, "read_version": 0.8, "scribble": 0.8,
-              "set_border": 0.8, "set_box": 0.5})
+              "set_border": 0.8, "set_box": 0.5, "best_mask_pattern": 0.25})
     if focus == "C15":
         w.update({"print_ascii": 5, "print_tty": 3, "set_border": 2.5, "image": 0.3})
     elif focus == "C16":
@@ -1070,10 +1092,15 @@ def _weights(focus):
     return w
 
 
+BORDERS = [0, 0, 0, 1, 1, 2, 3, 4, 4, 5, 6, 7, 8, 9, 10, 11, 12, 17]
+
+
 def _gen_version(rng, tier, small=True):
     r = rng.random()
-    if tier == "thorough" and r < 0.06:
-        return rng.choice([9, 10, 11, 26, 27, 40, 39, 13, 20])
+    if r < (0.06 if tier == "thorough" else 0.02):
+        # rare large symbols (a forced-mask compile of version 40 costs ~0.1 s, an
+        # automatic one ~2 s)
+        return rng.choice([9, 10, 11, 26, 27, 40, 39, 13, 20, 14, 21, 32, 35])
     if r < 0.75:
         return rng.randint(1, 5)
     if r < 0.95:
@@ -1123,7 +1150,7 @@ def gen_op(rng, kind, obj, pool, tier, focus):
                 "value": rng.choice([None, 0, 1, 2, 3, 4, 5, 6, 7])}
     if kind == "set_border":
         return {"op": "set", "obj": obj, "attr": "border",
-                "value": rng.choice([0, 0, 1, 2, 3, 4, 5, 9])}
+                "value": rng.choice(BORDERS)}
     if kind == "set_box":
         return {"op": "set", "obj": obj, "attr": "box_size", "value": rng.choice([1, 2, 3, 6, 10])}
     if kind == "set_invalid":
@@ -1136,6 +1163,8 @@ def gen_op(rng, kind, obj, pool, tier, focus):
     if kind == "best_fit":
         return {"op": "best_fit", "obj": obj,
                 "start": rng.choice([None, None, 1, 2, 5, 9, 10, _gen_version(rng, tier)])}
+    if kind == "best_mask_pattern":
+        return {"op": "best_mask_pattern", "obj": obj}
     if kind == "get_matrix":
         return {"op": "get_matrix", "obj": obj}
     if kind == "scribble":
@@ -1176,11 +1205,14 @@ def gen_new(rng, obj, tier, focus, force_valid=False):
     if rng.random() < 0.65:
         kw["mask_pattern"] = rng.choice([None, 0, 1, 2, 3, 4, 5, 6, 7])
     if rng.random() < 0.5:
-        kw["border"] = rng.choice([0, 0, 1, 2, 3, 4, 6, 9])
+        kw["border"] = rng.choice(BORDERS)
     if rng.random() < 0.5:
         kw["box_size"] = rng.choice([1, 1, 2, 3, 6])
     else:
         kw["box_size"] = rng.choice([1, 2])      # keep rasters small
+    if isinstance(kw.get("version"), int) and kw["version"] > 10 and \
+            kw.get("mask_pattern") is None:
+        kw["mask_pattern"] = rng.randrange(8)
     p_bad = 0.0 if force_valid else (0.6 if focus == "C18" else 0.12)
     if rng.random() < p_bad:
         for attr in rng.sample(["version", "mask_pattern", "border", "box_size"],
